@@ -181,7 +181,13 @@ def check_term(rep, flow, f, cp, pi, r, term, which):
                     continue
                 kind, nk, ck = pats[0]
                 if cp is None or ck != ("param", cp):
-                    rep.finding("P1", f"{f.fq}:{gate}:connectivity", f"{where}: two-qubit gate {gate} is taken from table connectivity {fmt(ck)} instead of the caller's `connectivity` argument", {"term": t_fmt(term)})
+                    verdict, why = foreign_table_verdict(flow, f, cp, r, kind, nk, ck)
+                    if verdict == "undecidable":
+                        raise AnalysisError(f"{where}: {why}")
+                    if verdict == "contained":
+                        rep.ok("P1", 1, nontrivial=(f.fq, pi, gate, "contained"), sample=f"{f.qualname} path #{pi}: {why}")
+                        continue
+                    rep.finding("P1", f"{f.fq}:{gate}:connectivity", f"{where}: two-qubit gate {gate} is taken from table connectivity {fmt(ck)} instead of the caller's `connectivity` argument: {why}", {"term": t_fmt(term)})
                 elif not own_N(nk):
                     rep.finding("P1", f"{f.fq}:{gate}:qubits", f"{where}: two-qubit gate {gate} is taken from the table for N = {fmt(nk)}, which is not the caller's own qubit count", {"term": t_fmt(term)})
                 else:
@@ -224,6 +230,60 @@ def check_term(rep, flow, f, cp, pi, r, term, which):
             raise AnalysisError(f"{where}: opaque circuit in result: {leaf[1]}")
         else:
             raise AnalysisError(f"{where}: unknown term leaf {leaf!r}")
+
+
+def _pure_table_field(k):
+    """is the string handed to the loader exactly a field of a table line (not a transformed copy of it)"""
+    return isinstance(k, tuple) and len(k) >= 4 and k[0] == "field" and isinstance(k[1], tuple) and k[1] and k[1][0] in ("part", "field") and \
+        isinstance(k[1][1], tuple) and k[1][1] and k[1][1][0] == "filetext"
+
+
+def foreign_table_verdict(flow, f, cp, r, kind, nk, ck):
+    """the table read on this path is not the one named by the caller's connectivity argument.
+    'violation'   - every request is served from a fixed other table (no condition on the connectivity), or the
+                    request is pinned to connectivity X and the other table has a two-qubit token outside E(n, X)
+    'contained'   - request pinned to X, tokens reach the gates untransformed, and every two-qubit token of the
+                    other table lies on an edge of (n, X) (serving a sparser table is connectivity-safe)
+    'undecidable' - the circuit text is transformed before it is parsed (e.g. qubits relabelled), or the
+                    relation between request and table is not a pinned constant"""
+    from . import tables as tb
+    from .rules_gate import find_loader
+    loaders = find_loader(flow)
+    for ev in r.events:
+        if ev[0] == "call" and ev[1] in loaders:
+            sk = [vkey(a) for a in ev[2][1:2]]
+            if sk and not _pure_table_field(sk[0]):
+                return "undecidable", (f"the circuit text of table connectivity {fmt(ck)} is transformed ({fmt(sk[0])[:80]}...) before it is parsed at {ev[4]}: "
+                                       "whether the transformed operands are coupled in the requested connectivity is not visible in the shape of the code")
+    if not (isinstance(ck, tuple) and ck and ck[0] == "const"):
+        return "undecidable", f"the table connectivity {fmt(ck)} is neither the caller's argument nor a constant"
+    cprime = ck[2]
+    pinned = [k[1][2][2] if k[1][1] == ("param", cp) else k[1][1][2] for k, v in r.decisions.items()
+              if isinstance(k, tuple) and k[0] == "truth" and isinstance(k[1], tuple) and k[1] and k[1][0] == "cmpEq" and v is True and
+              ((k[1][1] == ("param", cp) and isinstance(k[1][2], tuple) and k[1][2][:1] == ("const",)) or (k[1][2] == ("param", cp) and isinstance(k[1][1], tuple) and k[1][1][:1] == ("const",)))]
+    if not pinned:
+        if cp is not None and any(_mentions(k, ("param", cp)) for k in r.decisions):
+            return "undecidable", f"the path depends on `{cp}` in a way that does not pin it to a constant"
+        return "violation", f"every request on this path is served from the {cprime!r} table, whatever connectivity was asked for"
+    X = pinned[0]
+    T = flow.__dict__.get("_tables")
+    if T is None:
+        from .rules_tables import Tables
+        T = flow.__dict__["_tables"] = Tables(flow.tree)
+    for tf in T.files:
+        if tf.kind != kind or tf.conn != cprime:
+            continue
+        try:
+            E = spec.edges(tf.n, X)
+        except KeyError:
+            continue
+        if (tf.n, X) not in spec.ADVERTISED:
+            continue
+        for L in tf.lines:
+            for o in L.ops:
+                if o.two and frozenset(o.qubits) not in E:
+                    return "violation", f"requests for ({tf.n}, {X!r}) are served from {tf.name}, whose line {L.index} uses ({o.qubits[0]},{o.qubits[1]}) - not an edge of ({tf.n}, {X!r})"
+    return "contained", f"requests for {X!r} are served from the {cprime!r} table, all of whose two-qubit tokens lie on edges of the requested connectivity"
 
 
 def _mentions(k, target):
